@@ -1,17 +1,18 @@
 // C07 harness (membership rules): drives the real rsm.membership of /repo
 // white-box (through the verif hooks) with sequences of config change requests
-// and prints, per request, the ten rule values, the verdict and the complete
-// membership afterwards. The same cases are run by the Coq model extracted to
+// and prints, per request, the verdict and the complete membership afterwards. The same cases are run by the Coq model extracted to
 // OCaml (ocaml/c07/driver.ml); bin/check compares the two outputs.
 //
 // case line:   <id> ordered=<0|1> | op ; op ; ...
 // ops:         cc <type> <replica> <addrhex> <ccid> <init> <index>
-//              snap                                   m.set(m.get())
-//              set <ccid> <addresses> <nonvotings> <witnesses> <removed>
-//                       maps: id:hex,id:hex or - ; removed: id,id or -
-//              eq <hexa> <hexb>                       addressEqual
-// observation: <id> <opno> A|R|P<tag> rules=<10 bits> ccid=.. a=[..] n=[..] w=[..] r=[..]
-//              (a panic ends the case) / <id> <opno> S ... / <id> <opno> EQ <0|1>
+//
+//	snap                                   m.set(m.get())
+//	set <ccid> <addresses> <nonvotings> <witnesses> <removed>
+//	         maps: id:hex,id:hex or - ; removed: id,id or -
+//
+// observation: <id> <opno> A|R|P<tag> ccid=.. a=[..] n=[..] w=[..] r=[..]
+//
+//	(a panic ends the case) / <id> <opno> S ...
 package main
 
 import (
@@ -25,11 +26,6 @@ import (
 	hooks "github.com/lni/dragonboat/v4/verifhooks/c07"
 	"verif/harness/vh"
 )
-
-var ruleNames = []string{"isUpToDate", "isAddRemovedNode", "isAddExistingMember",
-	"isAddNodeAsNonVoting", "isAddNodeAsWitness", "isAddWitnessAsNode",
-	"isAddWitnessAsNonVoting", "isAddNonVotingAsWitness", "isDeleteOnlyNode",
-	"isInvalidNonVotingPromotion"}
 
 var typeNames = map[int32]string{0: "AddNode", 1: "RemoveNode", 2: "AddNonVoting", 3: "AddWitness"}
 
@@ -69,17 +65,6 @@ func showSet(m map[uint64]bool) string {
 func showMembership(m pb.Membership) string {
 	return fmt.Sprintf("ccid=%d a=%s n=%s w=%s r=%s", m.ConfigChangeId,
 		showMap(m.Addresses), showMap(m.NonVotings), showMap(m.Witnesses), showSet(m.Removed))
-}
-
-func bits(v [10]bool) string {
-	b := make([]byte, 10)
-	for i, x := range v {
-		b[i] = '0'
-		if x {
-			b[i] = '1'
-		}
-	}
-	return string(b)
 }
 
 func panicTag(p string) string {
@@ -314,6 +299,7 @@ func runCase(line string, obs *vh.LineWriter, st *vh.Stats) {
 	m := hooks.NewMembership(1, 1, ordered)
 	twin := hooks.NewMembership(77, 5, ordered) // a second replica of another shard/replica id fed the same log
 	acceptedN, rejectedRule, promos := 0, 0, 0
+	everRemoved := map[uint64]bool{} // the harness' own record of accepted removals since the last installed membership
 	if body == "" {
 		obs.Printf("%s 0 EMPTY\n", id)
 		st.Case(rest, false, line)
@@ -325,14 +311,6 @@ func runCase(line string, obs *vh.LineWriter, st *vh.Stats) {
 			continue
 		}
 		switch f[0] {
-		case "eq":
-			a, b := string(vh.UnHex(f[1])), string(vh.UnHex(f[2]))
-			r := hooks.AddressEqual(a, b)
-			if r != (normAddr(a) == normAddr(b)) {
-				st.Violation(id, fmt.Sprintf("addressEqual(%q,%q)=%v", a, b, r))
-			}
-			st.Count("op.eq")
-			obs.Printf("%s %d EQ %d\n", id, n, b2i(r))
 		case "snap":
 			m.Set(m.Get())
 			twin.Set(twin.Get())
@@ -343,21 +321,35 @@ func runCase(line string, obs *vh.LineWriter, st *vh.Stats) {
 				NonVotings: parseMap(f[3]), Witnesses: parseMap(f[4]), Removed: parseSet(f[5])}
 			m.Set(pm)
 			twin.Set(pm)
+			everRemoved = map[uint64]bool{}
+			pms, _ := members(pm)
+			for k := range pm.Removed {
+				if _, isMember := pms[k]; !isMember { // malformed installed memberships are only compared, not monitored
+					everRemoved[k] = true
+				}
+			}
 			st.Count("op.set")
 			obs.Printf("%s %d S %s\n", id, n, showMembership(m.Get()))
 		case "cc":
 			cc, index := parseCC(f)
 			before := m.Get()
-			var rules [10]bool
 			var acc, tacc bool
-			p := vh.Catch(func() {
-				rules = m.Rules(cc)
-				acc = m.HandleConfigChange(cc, index)
-			})
+			p := vh.Catch(func() { acc = m.HandleConfigChange(cc, index) })
 			tp := vh.Catch(func() { tacc = twin.HandleConfigChange(cc, index) })
 			after := m.Get()
 			for _, msg := range monitorStep(ordered, before, after, cc, index, acc, p) {
 				st.Violation(id, fmt.Sprintf("op %d: %s", n, msg))
+			}
+			if p == "" && acc && cc.Type == pb.RemoveNode {
+				everRemoved[cc.ReplicaID] = true
+			}
+			if p == "" {
+				am, _ := members(after)
+				for k := range everRemoved {
+					if _, ok := am[k]; ok {
+						st.Violation(id, fmt.Sprintf("op %d: replica %d was removed earlier and is a member again", n, k))
+					}
+				}
 			}
 			if tp != p || tacc != acc || (p == "" && showMembership(twin.Get()) != showMembership(after)) {
 				st.Violation(id, fmt.Sprintf("op %d: two replicas applying the same log disagree", n))
@@ -383,21 +375,13 @@ func runCase(line string, obs *vh.LineWriter, st *vh.Stats) {
 					st.Count("accept." + tn)
 				}
 			} else {
-				first := "none"
-				if !rules[0] {
-					first = ruleNames[0]
-				} else {
-					for i := 1; i < 10; i++ {
-						if rules[i] {
-							first = ruleNames[i]
-							rejectedRule++
-							break
-						}
-					}
+				first := classifyReject(ordered, before, cc)
+				if first != "stale-id" {
+					rejectedRule++
 				}
 				st.Count("reject." + first)
 			}
-			obs.Printf("%s %d %s rules=%s %s\n", id, n, res, bits(rules), showMembership(after))
+			obs.Printf("%s %d %s %s\n", id, n, res, showMembership(after))
 		default:
 			obs.Printf("%s %d BADOP\n", id, n)
 		}
@@ -444,4 +428,32 @@ func main() {
 	default:
 		panic("mode must be gen or run")
 	}
+}
+
+// classifyReject names, for the statistics only, why the harness expects a
+// request to be refused (its own reading of the property, not the code's rules).
+func classifyReject(ordered bool, before pb.Membership, cc pb.ConfigChange) string {
+	ms, _ := members(before)
+	cur, isMember := ms[cc.ReplicaID]
+	isAdd := cc.Type == pb.AddNode || cc.Type == pb.AddNonVoting || cc.Type == pb.AddWitness
+	switch {
+	case ordered && !cc.Initialize && cc.ConfigChangeId != before.ConfigChangeId:
+		return "stale-id"
+	case isAdd && before.Removed[cc.ReplicaID]:
+		return "removed-id"
+	case cc.Type == pb.RemoveNode:
+		return "last-voter"
+	case isAdd && isMember:
+		want := map[pb.ConfigChangeType]string{pb.AddNode: "voting", pb.AddNonVoting: "nonvoting", pb.AddWitness: "witness"}[cc.Type]
+		if cur[0].kind == want {
+			return "existing-id"
+		}
+		if cur[0].kind == "nonvoting" && want == "voting" {
+			return "promotion-other-address"
+		}
+		return "kind-change." + cur[0].kind + "-to-" + want
+	case isAdd:
+		return "address-in-use"
+	}
+	return "other"
 }
